@@ -71,7 +71,6 @@ package rrc
 //@ ensures deadlines-kept: forallKey(m.paths, func(k string) bool { return KEPT(k) ==> m.paths[k].expiresAt == old(m.paths[k].expiresAt) })
 //@ end
 
-
 //@ func Manager.recordReceived
 //@ watch sameAddress Manager.pathLocked Manager.touchLocked
 //@ requires inv: INV(m)
@@ -169,6 +168,7 @@ package rrc
 //@ func Manager.WrapReplayMarker
 //@ ensures disabled-passthrough: !enabled ==> sameRef(result, marker)
 //@ ensures nil-passthrough: marker == nil ==> result == nil
+//@ ensures marker-kept-present: marker != nil ==> result != nil
 //@ end
 
 // The wrapped marker and the active-address getter are caller-supplied callbacks; they are assumed
